@@ -328,3 +328,42 @@ fn c10_resynchronisation() {
     }
     println!("COMPANION-OK cases={}", cases);
 }
+
+/// C10 with windows of 32 bytes and more (the rotation amounts of BuzHash wrap at 32) on longer random streams
+#[test]
+fn c10_large_window_resynchronisation() {
+    start_watchdog();
+    std::panic::set_hook(Box::new(|_| {}));
+    let mut rng = Rng(0x0c10_0c10_7777_1357);
+    let mut cases = 0;
+    for (algo, w) in [(Algo::BuzHash, 31usize), (Algo::BuzHash, 32), (Algo::BuzHash, 33), (Algo::BuzHash, 64), (Algo::BuzHash, 100), (Algo::RollSum, 64), (Algo::RollSum, 300)] {
+        for (bits, min, max) in [(4u32, 0usize, 4000usize), (5, 20, 500), (3, w, 2 * w + 50)] {
+            let c = Cfg { algo, bits, min, max, w };
+            for _ in 0..12 {
+                let n1 = rng.below(3 * w as u64) as usize;
+                let n2 = rng.below(3 * w as u64) as usize;
+                let p1: Vec<u8> = (0..n1).map(|_| rng.below(256) as u8).collect();
+                let p2: Vec<u8> = (0..n2).map(|_| rng.below(256) as u8).collect();
+                let s: Vec<u8> = (0..(6 * w + 1500)).map(|_| rng.below(256) as u8).collect();
+                let x1: Vec<u8> = p1.iter().chain(s.iter()).cloned().collect();
+                let x2: Vec<u8> = p2.iter().chain(s.iter()).cloned().collect();
+                let (r1, r2) = match (catch(real(&c, &x1, &[])), catch(real(&c, &x2, &[]))) {
+                    (Ok(a), Ok(b)) => (a, b),
+                    (Err(e), _) | (_, Err(e)) => witness("C10", &c, &x1[..64.min(x1.len())], &[], &[], &format!("{:?}", e)),
+                };
+                let b1: Vec<i64> = r1.iter().map(|(o, l)| *o as i64 + *l as i64 - p1.len() as i64).filter(|b| *b < s.len() as i64).collect();
+                let b2: Vec<i64> = r2.iter().map(|(o, l)| *o as i64 + *l as i64 - p2.len() as i64).filter(|b| *b < s.len() as i64).collect();
+                if let Some(j) = b1.iter().find(|j| **j >= c.w as i64 && b2.contains(j)) {
+                    let t1: Vec<&i64> = b1.iter().filter(|b| *b > j).collect();
+                    let t2: Vec<&i64> = b2.iter().filter(|b| *b > j).collect();
+                    if t1 != t2 {
+                        println!("WITNESS {{\"kind\":\"C10\",\"config\":\"{:?}\",\"prefix1\":{:?},\"prefix2\":{:?},\"common_len\":{},\"common_first_bytes\":{:?},\"common_boundary\":{},\"later_boundaries_1\":{:?},\"later_boundaries_2\":{:?},\"note\":\"random streams from the fixed seed 0x0c100c1077771357\"}}", c, p1, p2, s.len(), &s[..32], j, &t1[..t1.len().min(8)], &t2[..t2.len().min(8)]);
+                        panic!("boundaries after a common boundary differ");
+                    }
+                }
+                cases += 1;
+            }
+        }
+    }
+    println!("COMPANION-OK cases={}", cases);
+}
